@@ -521,10 +521,9 @@ func ParseND(in []byte) ([]*Node, Verdict) {
 		docs = append(docs, n)
 	}
 	if len(docs) == 0 {
-		if edge {
-			return nil, OutOfClaim
-		}
-		return nil, Invalid
+		// no document at all: "every non-blank line is accepted" holds vacuously while the
+		// implementation reports an error; treated as outside the claim.
+		return nil, OutOfClaim
 	}
 	if exempt {
 		return docs, OutOfClaim
